@@ -233,6 +233,18 @@ func TestC06(t *testing.T) {
 						runATS(a, d, sent, "bitflip")
 					}
 				}
+				// every pair of signature bytes altered by the same mask (two errors that could cancel out in a folded comparison),
+				// and every pair of adjacent bits of the last 14 bytes
+				for i := 0; i < 6; i++ {
+					for j := i + 1; j < 6; j++ {
+						for bit := 0; bit < 8; bit += 1 + (i+j)%3 {
+							d := append([]byte(nil), vw...)
+							d[nb-6+i] ^= 1 << uint(bit)
+							d[nb-6+j] ^= 1 << uint(bit)
+							runATS(a, d, sent, "sig-two-bytes-same-mask")
+						}
+					}
+				}
 				// other tampering
 				for k := 0; k < nRandTamper/nTamperFrames+1; k++ {
 					d := append([]byte(nil), vw...)
